@@ -183,17 +183,56 @@ fn parse_out(rep: &mut Report, cx: &Cx, cat: &str) -> Option<Class> {
     }
 }
 
-fn judge_marks(rep: &mut Report, cx: &Cx, what: &str, marks: &[Mark], want: Option<Side>, key: &str) {
-    let d = || cx.detail(json!({"member": key, "marks_found": format!("{marks:?}"), "expected_side": want.map(|s| s.name())}));
-    if marks.iter().any(|m| *m == Mark::Malformed) { rep.violation(format!("C13 {what}: Environment mark malformed"), d()); return; }
-    match (want, marks) {
-        (None, []) => rep.count("marks.shared_unmarked"),
-        (None, _) => rep.violation(format!("C13 {what} marked with a side"), d()),
-        (Some(_), []) => rep.violation(format!("C13 {what} not marked with its side"), d()),
-        (Some(w), [Mark::Side(s)]) if *s == w => rep.count("marks.one_sided_marked"),
-        (Some(_), [_]) => rep.violation(format!("C13 {what} marked with the wrong side"), d()),
-        (Some(_), _) => rep.violation(format!("C13 {what} marked more than once"), d()),
+/// multiset difference a - b
+fn msub<T: PartialEq + Clone>(a: &[T], b: &[T]) -> Vec<T> {
+    let mut rest = b.to_vec(); let mut out = vec![];
+    for x in a { if let Some(p) = rest.iter().position(|y| y == x) { rest.remove(p); } else { out.push(x.clone()); } }
+    out
+}
+fn other(s: Side) -> Side { match s { Side::Client => Side::Server, Side::Server => Side::Client } }
+
+/// Environment marks an INPUT element already carries (either visibility) — e.g. because the input is itself a merged jar
+fn source_marks(rep: &mut Report, vis: &[Annotation], invis: &[Annotation]) -> Vec<Mark> {
+    let (mut v, mut i) = (vis.to_vec(), invis.to_vec());
+    let (nv, ni) = (v.len(), i.len());
+    let m = take_marks(&mut v, &mut i);
+    if v.len() < nv { rep.count("premarked.source_mark.visible"); }
+    if i.len() < ni { rep.count("premarked.source_mark.invisible"); }
+    m
+}
+fn unmarked_f(f: &Field) -> Field { let mut f = f.clone(); take_marks(&mut f.vis_annotations, &mut f.invis_annotations); f }
+fn unmarked_m(m: &Method) -> Method { let mut m = m.clone(); take_marks(&mut m.vis_annotations, &mut m.invis_annotations); m }
+
+/// An element that only ONE side of THIS merge has must come out carrying a mark that names that side, and the merge may
+/// add nothing but that one mark. What happens to marks the element arrived with (kept, removed, a same-side mark not
+/// duplicated) is left open by the statement: counted, not judged.
+fn judge_one_sided_marks(rep: &mut Report, cx: &Cx, what: &str, tag: &str, out: &[Mark], src: &[Mark], want: Side, key: &str) {
+    let added = msub(out, src); let removed = msub(src, out);
+    let d = || cx.detail(json!({"element": key, "marks_in_output": format!("{out:?}"), "marks_the_source_arrived_with": format!("{src:?}"), "expected_side": want.name()}));
+    let (w, o) = (Mark::Side(want), Mark::Side(other(want)));
+    if !src.is_empty() {
+        let (hs, ho) = (src.contains(&w), src.contains(&o));
+        rep.count(&format!("premarked.one_sided_{tag}.arrived_with_{}", match (hs, ho) { (true, true) => "marks_of_both_sides", (true, false) => "a_mark_of_its_side", (false, true) => "a_mark_of_the_other_side", _ => "a_malformed_mark" }));
+        if !removed.is_empty() { rep.count("premarked.not_judged.source_mark_removed"); }
+        if ho && out.contains(&o) { rep.count("premarked.not_judged.stale_other_side_mark_kept"); }
+        if hs { rep.count(if added.is_empty() { "premarked.not_judged.same_side_mark_not_duplicated" } else { "premarked.not_judged.same_side_mark_duplicated" }); }
     }
+    if added.contains(&Mark::Malformed) { rep.violation(format!("C13 {what}: Environment mark malformed"), d()); return; }
+    if added.contains(&o) { rep.violation(format!("C13 {what} marked with the wrong side"), d()); }
+    else if !out.contains(&w) { rep.violation(format!("C13 {what} not marked with its side"), d()); }
+    else if added.len() > 1 { rep.violation(format!("C13 {what} marked more than once"), d()); }
+    else { rep.count("marks.one_sided_marked"); }
+}
+
+/// An element BOTH sides have: this merge must not mark it, i.e. the output's marks are among the marks one of the two
+/// versions arrived with. Whether marks it arrived with are kept is left open (counted).
+fn judge_shared_marks(rep: &mut Report, cx: &Cx, what: &str, tag: &str, out: &[Mark], c: &[Mark], s: &[Mark], key: &str) {
+    if !c.is_empty() || !s.is_empty() {
+        rep.count(&format!("premarked.shared_{tag}.arrived_marked_{}", if c == s { "equally_on_both_sides" } else if c.is_empty() || s.is_empty() { "on_one_side" } else { "differently_on_the_two_sides" }));
+        rep.count(if out.is_empty() { "premarked.not_judged.shared_element_source_marks_removed" } else { "premarked.not_judged.shared_element_keeps_source_marks" });
+    }
+    if msub(out, c).is_empty() || msub(out, s).is_empty() { rep.count("marks.shared_unmarked"); }
+    else { rep.violation(format!("C13 {what} marked with a side"), cx.detail(json!({"element": key, "marks_in_output": format!("{out:?}"), "marks_the_client_version_arrived_with": format!("{c:?}"), "marks_the_server_version_arrived_with": format!("{s:?}")}))); }
 }
 
 /// a class that exists on one side only: marked with that side, everything else as in the source
@@ -201,8 +240,11 @@ pub fn judge_one_sided(rep: &mut Report, cx: &Cx, side: Side) {
     let Some(mut o) = parse_out(rep, cx, "one-sided") else { return };
     let src = match side { Side::Client => cx.client, Side::Server => cx.server }.map(|x| x.0).expect("source of a one-sided class");
     let marks = take_marks(&mut o.vis_annotations, &mut o.invis_annotations);
-    judge_marks(rep, cx, &format!("{}-only class", side.name()), &marks, Some(side), cx.entry);
-    report_facts(rep, cx, "one-sided class", src, &o);
+    let mut src = src.clone();
+    let had = source_marks(rep, &src.vis_annotations, &src.invis_annotations);
+    take_marks(&mut src.vis_annotations, &mut src.invis_annotations);
+    judge_one_sided_marks(rep, cx, &format!("{}-only class", side.name()), "class", &marks, &had, side, cx.entry);
+    report_facts(rep, cx, "one-sided class", &src, &o);
 }
 
 #[derive(Default, Debug, Clone)]
@@ -264,24 +306,39 @@ pub fn judge_differing(rep: &mut Report, cx: &Cx) -> Option<DiffStats> {
     let (ci, si) = (c.interfaces.clone(), s.interfaces.clone());
     let (iok, ist) = check_keys(rep, cx, "interface", &ci, &si, &o.interfaces, false);
     let marks = take_itf_marks(&mut o.vis_annotations, &mut o.invis_annotations);
+    // marks the two versions arrived with (an input may itself be the result of a merge)
+    let (mut cc, mut sc) = (c.clone(), s.clone());
+    let src_c = take_itf_marks(&mut cc.vis_annotations, &mut cc.invis_annotations).unwrap_or_default();
+    let src_s = take_itf_marks(&mut sc.vis_annotations, &mut sc.invis_annotations).unwrap_or_default();
     if iok {
         match marks {
             None => rep.violation("C13 differing class: EnvironmentInterfaces mark malformed", cx.detail(json!({}))),
             Some(found) => {
-                let d = |x: &JS| cx.detail(json!({"interface": x.show(), "marks_found": format!("{found:?}"), "client_interfaces": format!("{ci:?}"), "server_interfaces": format!("{si:?}")}));
+                let d = |x: &JS| cx.detail(json!({"interface": x.show(), "marks_in_output": format!("{found:?}"), "marks_the_client_version_arrived_with": format!("{src_c:?}"), "marks_the_server_version_arrived_with": format!("{src_s:?}"), "client_interfaces": format!("{ci:?}"), "server_interfaces": format!("{si:?}")}));
+                let n = |l: &[(JS, Side)], i: &JS, sd: Side| l.iter().filter(|m| m.0 == *i && m.1 == sd).count();
+                // marks of (i, side) this merge ADDED: more of them in the output than either version arrived with
+                let added = |i: &JS, sd: Side| n(&found, i, sd).saturating_sub(n(&src_c, i, sd).max(n(&src_s, i, sd)));
                 for i in &o.interfaces {
                     let want = match (ci.contains(i), si.contains(i)) { (true, false) => Some(Side::Client), (false, true) => Some(Side::Server), _ => None };
-                    let got: Vec<Side> = found.iter().filter(|m| m.0 == *i).map(|m| m.1).collect();
-                    match (want, got.as_slice()) {
-                        (None, []) => rep.count("marks.shared_interface_unmarked"),
-                        (None, _) => rep.violation("C13 differing class: shared interface marked with a side", d(i)),
-                        (Some(_), []) => rep.violation("C13 differing class: one-sided interface not marked with its side", d(i)),
-                        (Some(w), [g]) if *g == w => rep.count("marks.one_sided_interface_marked"),
-                        (Some(_), [_]) => rep.violation("C13 differing class: one-sided interface marked with the wrong side", d(i)),
-                        (Some(_), _) => rep.violation("C13 differing class: one-sided interface marked more than once", d(i)),
+                    let arrived = src_c.iter().chain(&src_s).any(|m| m.0 == *i);
+                    match want {
+                        None => {
+                            if arrived { rep.count("premarked.shared_interface.arrived_marked"); }
+                            if added(i, Side::Client) + added(i, Side::Server) > 0 { rep.violation("C13 differing class: shared interface marked with a side", d(i)); } else { rep.count("marks.shared_interface_unmarked"); }
+                        }
+                        Some(w) => {
+                            if arrived {
+                                let mine = if w == Side::Client { &src_c } else { &src_s };
+                                rep.count(&format!("premarked.one_sided_interface.arrived_with_{}", match (n(mine, i, w) > 0, n(mine, i, other(w)) > 0) { (true, true) => "marks_of_both_sides", (true, false) => "a_mark_of_its_side", (false, true) => "a_mark_of_the_other_side", _ => "a_mark_only_on_the_version_that_lacks_it" }));
+                            }
+                            if added(i, other(w)) > 0 { rep.violation("C13 differing class: one-sided interface marked with the wrong side", d(i)); }
+                            else if n(&found, i, w) == 0 { rep.violation("C13 differing class: one-sided interface not marked with its side", d(i)); }
+                            else if added(i, w) > 1 { rep.violation("C13 differing class: one-sided interface marked more than once", d(i)); }
+                            else { rep.count("marks.one_sided_interface_marked"); }
+                        }
                     }
                 }
-                for m in &found { if !o.interfaces.contains(&m.0) { rep.violation("C13 differing class: EnvironmentInterfaces names an interface the class does not implement", d(&m.0)); } }
+                for m in &found { if !o.interfaces.contains(&m.0) && added(&m.0, m.1) > 0 { rep.violation("C13 differing class: EnvironmentInterfaces names an interface the class does not implement", d(&m.0)); } }
             }
         }
     }
@@ -300,12 +357,14 @@ pub fn judge_differing(rep: &mut Report, cx: &Cx) -> Option<DiffStats> {
             let (a, b) = (c.fields.iter().find(|x| fkey(x) == k), s.fields.iter().find(|x| fkey(x) == k));
             let ks = format!("{} {}", k.0.show(), k.1.show());
             match (a, b) {
-                (Some(a), None) => { judge_marks(rep, cx, "differing class: client-only field", &marks, Some(Side::Client), &ks); report_facts(rep, cx, "client-only field", &wrap_f(a), &wrap_f(&f)); }
-                (None, Some(b)) => { judge_marks(rep, cx, "differing class: server-only field", &marks, Some(Side::Server), &ks); report_facts(rep, cx, "server-only field", &wrap_f(b), &wrap_f(&f)); }
+                (Some(a), None) => { let had = source_marks(rep, &a.vis_annotations, &a.invis_annotations); judge_one_sided_marks(rep, cx, "differing class: client-only field", "field", &marks, &had, Side::Client, &ks); report_facts(rep, cx, "client-only field", &wrap_f(&unmarked_f(a)), &wrap_f(&f)); }
+                (None, Some(b)) => { let had = source_marks(rep, &b.vis_annotations, &b.invis_annotations); judge_one_sided_marks(rep, cx, "differing class: server-only field", "field", &marks, &had, Side::Server, &ks); report_facts(rep, cx, "server-only field", &wrap_f(&unmarked_f(b)), &wrap_f(&f)); }
                 (Some(a), Some(b)) => {
-                    judge_marks(rep, cx, "differing class: shared field", &marks, None, &ks);
-                    if a != b && compare(&wrap_f(b), &wrap_f(&f)).0.is_empty() { rep.count("shared_member_differs.server_version_taken"); }
-                    else { if a != b { rep.count("shared_member_differs.client_version_taken_or_neither"); } report_facts(rep, cx, "shared field", &wrap_f(a), &wrap_f(&f)); }
+                    let (ha, hb) = (source_marks(rep, &a.vis_annotations, &a.invis_annotations), source_marks(rep, &b.vis_annotations, &b.invis_annotations));
+                    judge_shared_marks(rep, cx, "differing class: shared field", "field", &marks, &ha, &hb, &ks);
+                    let (a, b) = (unmarked_f(a), unmarked_f(b));
+                    if a != b && compare(&wrap_f(&b), &wrap_f(&f)).0.is_empty() { rep.count("shared_member_differs.server_version_taken"); }
+                    else { if a != b { rep.count("shared_member_differs.client_version_taken_or_neither"); } report_facts(rep, cx, "shared field", &wrap_f(&a), &wrap_f(&f)); }
                 }
                 (None, None) => {}
             }
@@ -318,17 +377,26 @@ pub fn judge_differing(rep: &mut Report, cx: &Cx) -> Option<DiffStats> {
             let (a, b) = (c.methods.iter().find(|x| mkey(x) == k), s.methods.iter().find(|x| mkey(x) == k));
             let ks = format!("{} {}", k.0.show(), k.1.show());
             match (a, b) {
-                (Some(a), None) => { judge_marks(rep, cx, "differing class: client-only method", &marks, Some(Side::Client), &ks); report_facts(rep, cx, "client-only method", &wrap_m(a), &wrap_m(&m)); }
-                (None, Some(b)) => { judge_marks(rep, cx, "differing class: server-only method", &marks, Some(Side::Server), &ks); report_facts(rep, cx, "server-only method", &wrap_m(b), &wrap_m(&m)); }
+                (Some(a), None) => { let had = source_marks(rep, &a.vis_annotations, &a.invis_annotations); judge_one_sided_marks(rep, cx, "differing class: client-only method", "method", &marks, &had, Side::Client, &ks); report_facts(rep, cx, "client-only method", &wrap_m(&unmarked_m(a)), &wrap_m(&m)); }
+                (None, Some(b)) => { let had = source_marks(rep, &b.vis_annotations, &b.invis_annotations); judge_one_sided_marks(rep, cx, "differing class: server-only method", "method", &marks, &had, Side::Server, &ks); report_facts(rep, cx, "server-only method", &wrap_m(&unmarked_m(b)), &wrap_m(&m)); }
                 (Some(a), Some(b)) => {
-                    judge_marks(rep, cx, "differing class: shared method", &marks, None, &ks);
-                    if a != b && compare(&wrap_m(b), &wrap_m(&m)).0.is_empty() { rep.count("shared_member_differs.server_version_taken"); }
-                    else { if a != b { rep.count("shared_member_differs.client_version_taken_or_neither"); } report_facts(rep, cx, "shared method", &wrap_m(a), &wrap_m(&m)); }
+                    let (ha, hb) = (source_marks(rep, &a.vis_annotations, &a.invis_annotations), source_marks(rep, &b.vis_annotations, &b.invis_annotations));
+                    judge_shared_marks(rep, cx, "differing class: shared method", "method", &marks, &ha, &hb, &ks);
+                    let (a, b) = (unmarked_m(a), unmarked_m(b));
+                    if a != b && compare(&wrap_m(&b), &wrap_m(&m)).0.is_empty() { rep.count("shared_member_differs.server_version_taken"); }
+                    else { if a != b { rep.count("shared_member_differs.client_version_taken_or_neither"); } report_facts(rep, cx, "shared method", &wrap_m(&a), &wrap_m(&m)); }
                 }
                 (None, None) => {}
             }
         }
     }
+
+    // ---- the class itself exists on both sides: this merge must not give it a side mark (marks it arrived with: open)
+    let cm_class = { let had = source_marks(rep, &cc.vis_annotations, &cc.invis_annotations); take_marks(&mut cc.vis_annotations, &mut cc.invis_annotations); had };
+    let sm_class = { let had = source_marks(rep, &sc.vis_annotations, &sc.invis_annotations); take_marks(&mut sc.vis_annotations, &mut sc.invis_annotations); had };
+    let om_class = take_marks(&mut o.vis_annotations, &mut o.invis_annotations);
+    judge_shared_marks(rep, cx, "differing class: class present on both sides", "class", &om_class, &cm_class, &sm_class, cx.entry);
+    let (c, s) = (&cc, &sc); // from here on: both versions without Environment / EnvironmentInterfaces annotations
 
     // ---- the rest of the class: every class-level fact on which the two sides agree must be that fact
     // (record components / permitted subclasses are documented TODOs of the merger and outside the statement: counted only)
